@@ -4,6 +4,7 @@ import (
 	"encoding/json"
 	"fmt"
 	"os"
+	"time"
 
 	"gorm.io/gorm"
 )
@@ -32,3 +33,13 @@ func c12Trace(s c12Seq) {
 }
 
 var _ = gorm.ErrRecordNotFound
+
+// VERIF_C12_TIME=1 prints the wall time of each suite group to stderr
+func c12Timed(name string) func() {
+	t0 := time.Now()
+	return func() {
+		if os.Getenv("VERIF_C12_TIME") != "" {
+			fmt.Fprintf(os.Stderr, "c12 timing: %s %.1fs\n", name, time.Since(t0).Seconds())
+		}
+	}
+}
